@@ -5,6 +5,7 @@ exit 0 held / 1 violation (VIOLATION line) / 2 undecided / 3 checker broken
 """
 from __future__ import annotations
 import argparse
+import zlib
 import glob
 import hashlib
 import importlib
@@ -236,7 +237,7 @@ def run(prop, tier="quick", seed=0, replay=None, only=None):
         k = cd.native_runs or n_runs
         if tier == "thorough" and cd.native_runs:
             k = cd.native_runs * 5
-        nat[cd.name] = native_runs(cd, interp, seed * 7919 + hash(cd.name) % 1000, k)
+        nat[cd.name] = native_runs(cd, interp, seed * 7919 + zlib.crc32(cd.name.encode()) % 1000, k)
 
     known = load_known(prop)
     os.makedirs(os.path.join(VERIF, "replays"), exist_ok=True)
